@@ -126,6 +126,7 @@ def _dr():
 
 P.cut_baseline.harness = Harness(
     native=_cb_native(lambda r, b, a: _dr().cut_baseline(r, b, a)),
-    variants=[("py_func on a record array", _cb_native(lambda r, b, a: _pyf(_dr().cut_baseline)(r, b, a), rec=True))],
+    # (no py_func variant: the function uses attribute access on records, which plain numpy offers only on np.recarray views, and
+    #  numpy's record scalars then fail inside the harness's own bookkeeping - the compiled function is what runs in strax)
     gen=_cb_gen, scope="pulses of 1..9 samples in fragments of 4 x n_before in {0,1,2,5} x n_after in {0,1,3,6} + random <=3 pulses of <=11 samples",
     nontrivial=lambda i: len(i["records"]) >= 1)
